@@ -449,6 +449,7 @@ def list_read_ops(lo, hi, steps, sample_vals):
       Op('pg.List(x) == x', 'list.ctor-from-pg.List', mut=False, ref=lambda r: True),
       Op('list(pg.List(tuple(x)))', 'list.ctor-from-tuple', mut=False, ref=lambda r: list(r)),
       Op('list(pg.List(e for e in x))', 'list.ctor-from-generator', mut=False, ref=lambda r: list(r)),
+      Op('list(pg.List([M] + list(x) + [M, 7, M]))', 'list.ctor-with-MISSING', mut=False, ref=lambda r: list(r) + [7]),
   ]
   for k in (-1, 0, 1, 2, 3):
     kc = 'k<=0' if k <= 0 else ('k=1' if k == 1 else 'k>1')
@@ -669,7 +670,10 @@ def _deep_ops():
     r[1]['n'] = [1]
     return r
   def d2(r):
-    r[0].append(5)     # '[0][5]' is past the end of r[0] -> append
+    if len(r[0]) > 5:
+      r[0][5] = 5
+    else:
+      r[0].append(5)   # '[0][5]' is past the end of r[0] -> append
     return r
   def d3(r):
     del r[1]['a']
@@ -681,7 +685,7 @@ def _deep_ops():
   return [
       mk("x.rebind({'[0][1]': 9})", 'list.rebind-deep/replace', d0),
       mk("x.rebind({'[1].a': 7, '[1].n': [1]})", 'list.rebind-deep/dict-keys', d1),
-      mk("x.rebind({'[0][5]': 5})", 'list.rebind-deep/append', d2),
+      mk("x.rebind({'[0][5]': 5})", lambda r: 'list.rebind-deep/' + ('append' if len(r[0]) <= 5 else 'replace'), d2),
       mk("x.rebind({'[1].a': M})", 'list.rebind-deep/delete-key', d3),
       mk("x.rebind({'[0][0]': Ins(3), '[1].a': None})", 'list.rebind-deep/insert', d4),
   ]
@@ -868,6 +872,7 @@ def dict_ops(keys=None, vals=None):
       Op('dict(pg.Dict(x))', 'dict.ctor-from-pg.Dict', mut=False, ref=lambda r: dict(r)),
       Op('dict(pg.Dict(list(x.items())))', 'dict.ctor-from-pairs', mut=False, ref=lambda r: dict(r)),
       Op('dict(pg.Dict(dict(x), extra=1))', 'dict.ctor-kwargs', mut=False, ref=lambda r: dict(r, extra=1)),
+      Op('dict(pg.Dict(dict(x), gone=M, extra=1))', 'dict.ctor-with-MISSING', mut=False, ref=lambda r: dict(r, extra=1)),
       Op('dict(pg.Dict.fromkeys(list(x), 0))', 'dict.fromkeys', mut=False, ref=lambda r: dict.fromkeys(list(r), 0)),
   ]
   return ops
